@@ -4,6 +4,7 @@
 From ReqV Require Import Lib.Bytes Lib.BigEndian Model.BodyFraming Model.StreamBody Model.StreamWire
   Proofs.BodyFramingProofs Proofs.QuicVarintProofs Proofs.StreamBodyProofs Proofs.StreamWireProofs.
 From ReqV Require Model.H2Frame Proofs.StreamWireH2Proofs.
+From ReqV Require Import Model.Interim Proofs.InterimProofs.
 Local Open Scope nat_scope.
 
 (* HTTP/1.1, Content-Length and chunked framing (every body, every chunk partition with any
@@ -242,6 +243,82 @@ Theorem C03_h3_wire_refines_events : forall fs strict cl e, Forall df_wf fs ->
    W3 (snd (h3_read strict cl (h3_events fs ++ [h3_term e])))).
 Proof. exact h3_wire_refines_events_thm. Qed.
 Print Assumptions C03_h3_wire_refines_events.
+
+(* ===================== interim (1xx) header blocks in front of the final one =====================
+   An exchange is the list of header blocks the peer sent - (status, declared Content-Length)
+   each - and then the body.  Up to five non-terminal 1xx blocks, declaring whatever length
+   they like, are invisible: the body's length accounting is the final block's (state of an
+   earlier header block is not carried into the body). *)
+Theorem C03_h3_interims_invisible : forall ints fin wire e,
+  Forall (fun b => is_interim b = true) ints -> is_interim fin = false -> length ints <= max_1xx ->
+  h3_exchange (ints ++ [fin]) wire e = Some (h3_wire_read true (accounting_cl fin) wire e).
+Proof. exact h3_interims_invisible_thm. Qed.
+Print Assumptions C03_h3_interims_invisible.
+
+Theorem C03_h2_interims_invisible : forall ints fin hdr_end evs,
+  Forall (fun b => is_interim b = true) ints -> is_interim fin = false -> length ints <= max_1xx ->
+  h2_exchange (ints ++ [fin]) hdr_end evs = Some (h2_read (accounting_cl fin) hdr_end evs).
+Proof. exact h2_interims_invisible_thm. Qed.
+Print Assumptions C03_h2_interims_invisible.
+
+(* the stream ending behind the interim blocks, or a sixth interim block: the call fails *)
+Theorem C03_no_final_block_fails : forall ints rest wire e hdr_end evs,
+  Forall (fun b => is_interim b = true) ints ->
+  (length ints <= max_1xx -> h3_exchange ints wire e = None /\ h2_exchange ints hdr_end evs = None) /\
+  (max_1xx < length ints -> h3_exchange (ints ++ rest) wire e = None /\
+                            h2_exchange (ints ++ rest) hdr_end evs = None).
+Proof. exact no_final_block_fails_thm. Qed.
+Print Assumptions C03_no_final_block_fails.
+
+(* the every-cut theorem with interim blocks in front *)
+Theorem C03_h3_every_cut_with_interims : forall ints cl fs k e,
+  Forall (fun b => is_interim b = true) ints -> length ints <= max_1xx ->
+  Forall df_wf fs -> k <= length (h3_render fs) ->
+  exists d r, h3_exchange (ints ++ [mkHb 200 cl]) (firstn k (h3_render fs)) e = Some (d, r) /\
+    (exists m, d = firstn m (h3_body fs)) /\
+    (forall n, cl = Some n -> (lenN d <= n)%N) /\
+    (r = W3 H3Clean -> e = EndFin /\ h3_boundary fs k d /\ (cl = None \/ cl = Some (lenN d))).
+Proof. exact h3_every_cut_with_interims_thm. Qed.
+Print Assumptions C03_h3_every_cut_with_interims.
+
+(* refuted: the accounting carried over from the first header block (103 without a length,
+   final block declaring 5, 2 bytes then FIN: clean there, io.ErrUnexpectedEOF in the model
+   of the code) *)
+Example C03_carried_accounting_refuted :
+  let blocks := [mkHb 103 None; mkHb 200 (Some 5%N)] in
+  let wire := [x00; x02; "a"%byte; "b"%byte] in
+  h3_exchange_carried blocks wire EndFin = Some (bs "ab", W3 H3Clean) /\
+  h3_exchange blocks wire EndFin = Some (bs "ab", W3 H3UnexpectedEOF).
+Proof. exact carried_accounting_refuted. Qed.
+
+(* ===================== a content-coding on top of the framing =====================
+   For EVERY decoder [dec]: the decoded body is a success only if the framing below ended
+   cleanly and the decoder accepted everything the framing delivered - the decoder's own end
+   marker is not the end of the message. *)
+Theorem C03_coded_success_needs_clean : forall (dec : bytes -> option bytes) (E : Type)
+  (clean : E -> bool) (r : bytes * E) p,
+  coded_read dec clean r = Some p -> clean (snd r) = true /\ dec (fst r) = Some p.
+Proof. exact coded_success_needs_clean_thm. Qed.
+Print Assumptions C03_coded_success_needs_clean.
+
+Theorem C03_h2_coded_success : forall dec cl evs p,
+  coded_read dec h2_clean (h2_read cl false evs) = Some p ->
+  h2_ending evs = E2EndStream /\ (cl = None \/ cl = Some (lenN (h2_sent evs))) /\
+  dec (h2_sent evs) = Some p.
+Proof. exact h2_coded_success_thm. Qed.
+Print Assumptions C03_h2_coded_success.
+
+Theorem C03_h3_coded_success : forall dec fs cl k e p, Forall df_wf fs -> k <= length (h3_render fs) ->
+  coded_read dec h3w_clean (h3_wire_read true cl (firstn k (h3_render fs)) e) = Some p ->
+  e = EndFin /\ exists d, h3_boundary fs k d /\ dec d = Some p /\ (cl = None \/ cl = Some (lenN d)).
+Proof. exact h3_coded_success_thm. Qed.
+Print Assumptions C03_h3_coded_success.
+
+Theorem C03_h1_coded_success : forall dec fr s p,
+  coded_read dec is_clean (rd_data (read_body fr s), rd_err (read_body fr s)) = Some p ->
+  rd_err (read_body fr s) = Clean /\ dec (rd_data (read_body fr s)) = Some p.
+Proof. exact h1_coded_success_thm. Qed.
+Print Assumptions C03_h1_coded_success.
 
 (* non-vacuity for HTTP/2 and HTTP/3: concrete streams *)
 Example C03_streams_nonvacuous :
